@@ -109,12 +109,15 @@ FUNCS = [
     ("src/op/mod.rs", "DataOperation::evaluate", "DataOperation_evaluate", ["C02", "C04"], "run (data)"),
     ("src/value.rs", "Parsed::evaluate", "Parsed_evaluate", ["C01", "C02", "C04"], "run"),
     ("src/lib.rs", "apply", "apply", ["C01", "C02", "C04", "C17"], "apply"),
+    ("src/lib.rs", "python_iface::apply", "python_apply", ["C19"], "Wrap.native"),
     ("src/op/data.rs", "missing_some", "op_missing_some", ["C12"], "Eval.missingSome"),
 ]
 
 # functions that evaluate sub-rules (and may therefore print `log` lines): translated into the model's outcome monad `M`
 # (`Result<T, Error>` is `M T`, `?` is bind, `Parsed::from_value(x)?.evaluate(d)?` is the model's parse-then-evaluate of a sub-rule)
-M_FUNCS = {"Operation::evaluate", "LazyOperation::evaluate", "DataOperation::evaluate", "Raw::evaluate", "Parsed::evaluate", "Operator::execute", "LazyOperator::execute", "DataOperator::execute", "apply",
+# functions at the text boundary: the JSON codec (serde_json::from_str / Value::to_string) is a parameter of the translation, as it is of the model
+CODEC_FUNCS = {"python_iface::apply"}
+M_FUNCS = {"python_iface::apply", "Operation::evaluate", "LazyOperation::evaluate", "DataOperation::evaluate", "Raw::evaluate", "Parsed::evaluate", "Operator::execute", "LazyOperator::execute", "DataOperator::execute", "apply",
            "missing", "missing_some", "log", "if_", "or", "and", "map", "filter", "reduce", "all", "some", "none", "var"}
 
 # the parse / evaluate layer (the recursive knot): inside these, `Parsed::from_value` and `.evaluate(..)` are the *translated* functions
@@ -318,6 +321,7 @@ STD_CALLS = {
     ("Number", "from_f64"): "Num.ofF64?", ("Number", "from"): "Rs.number_from", ("f64", "from_str"): "JsOp.rustParseF64", ("String", "from"): "Rs.id_", ("i128", "from"): "Rs.to_int",
     ("std", "ptr", "eq"): "Rs.ptr_eq", ("ptr", "eq"): "Rs.ptr_eq", ("i64", "from"): "Rs.to_int", ("f64", "from"): "Rs.to_f64",
     ("Vec", "new"): "Rs.new_", ("String", "new"): "Rs.new_", ("Value", "clone"): "Rs.id_", ("Clone", "clone"): "Rs.id_", ("String", "clone"): "Rs.id_",
+    ("serde_json", "from_str"): "parse_", ("serde_json", "to_string"): "ser_",
     ("std", "mem", "take"): "Rs.mem_take", ("mem", "take"): "Rs.mem_take",
     ("cmp", "min"): "Rs.min_", ("cmp", "max"): "Rs.max_", ("std", "cmp", "min"): "Rs.min_", ("std", "cmp", "max"): "Rs.max_", ("Cow", "from"): "Rs.id_", ("Some",): "some",
     ("Value", "from"): "Rs.id_", ("Parsed", "from_value"): "Rs.parsed_from_value", ("usize", "try_from"): "Rs.try_into", ("u64", "try_from"): "Rs.try_into", ("i64", "try_from"): "Rs.try_into_i64",
@@ -348,6 +352,8 @@ class Emitter:
         self.loop_ctx = None              # state tuple text of the innermost loop (for break / continue)
         self.mmode = False                # the function lives in the outcome monad M
         self.in_m = True                  # (in M mode) the code being translated itself yields a Result
+        self.codec = False                # the JSON codec is a parameter (parse_, ser_)
+        self.json_vars = set()            # variables known to hold a `Value`
         self.impl_type = None             # the type whose `impl` block the function is in
         self.knot = False                 # the function belongs to the parse / evaluate layer
         self.vartypes = {}                # local variable -> crate type name, where the translation needs it to pick a method
@@ -526,6 +532,8 @@ class Emitter:
             return "(%s %s)" % (fn, " ".join(self.V(a) for a in e[2]))
         if k == "mcall":
             recv, name, args = e[1], e[2], e[3]
+            if name == "to_string" and self.codec and not args and self.type_of(recv) is None and recv[0] == "path" and recv[1][0] in self.json_vars:
+                return "(ser_ %s)" % self.V(recv)               # `Value::to_string`: serde_json's printer
             if name == "next" and not args and not (recv[0] == "path" and len(recv[1]) == 1 and recv[1][0] in self.muts):
                 return "(Rs.first %s)" % self.V(recv)              # the first item of a fresh iterator
             if name in MUTATING_METHODS or name in ("for_each", "sort", "sort_by", "retain", "dedup", "reverse", "swap", "remove", "drain", "truncate", "insert", "entry", "get_mut", "iter_mut", "as_mut"):
@@ -1140,7 +1148,7 @@ def translate_fn(f, lean_name, fn_names, extra_local=None, file_fns=None, aux_do
         else:
             generics[g] = "α_" + g
             binders.append("{α_%s : Type}" % g)
-    qual = ("%s::%s" % (f.get("impl"), f["name"])) if f.get("impl") else f["name"]
+    qual = f.get("qual") or (("%s::%s" % (f.get("impl"), f["name"])) if f.get("impl") else f["name"])
     mmode = ((f["name"] in M_FUNCS or qual in M_FUNCS) and not attr and "." not in lean_name) or force_m
     knot = qual in KNOT and (qual != "apply" or f.get("impl") is None)
     MMODE[0] = mmode
@@ -1154,6 +1162,8 @@ def translate_fn(f, lean_name, fn_names, extra_local=None, file_fns=None, aux_do
         generics[g] = "(" + " → ".join([lean_type(a, generics) for a in argtys] + [lean_type(m.group(3).strip(), generics)]) + ")"
         binders = [b for b in binders if b != "{α_%s : Type}" % g]
     params = []
+    if qual in CODEC_FUNCS:
+        params += ["(parse_ : Str → Option Json)", "(ser_ : Json → Str)"]
     for pat, ty in f["params"]:
         if pat[0] != "bind": raise UnsupportedSyntax("parameter pattern")
         params.append("(%s : %s)" % (ident(pat[1]), lean_type(ty, generics)))
@@ -1185,6 +1195,10 @@ def translate_fn(f, lean_name, fn_names, extra_local=None, file_fns=None, aux_do
     em.local_ctors = local_ctors
     em.impl_type = f.get("impl")
     em.knot = knot
+    em.codec = qual in CODEC_FUNCS
+    if em.codec:
+        em.knot = True            # `crate::apply` is the translated apply
+        em.json_vars = {"res", "result", "value_json", "data_json", "v", "out"}
     em.expand_catch_all = f["name"] in TERMINATION
     em.file_fns = {k: v for k, v in file_fns.items() if k != f["name"]}
     bound_names((f["params"], body), em.bound)
@@ -1242,6 +1256,10 @@ def generate(excluded):
             except Exception as ex:
                 cache[path] = {}
         fs = cache[path]
+        if rs == "python_iface::apply":       # the `apply(&str, &str) -> Result<String, String>` of the Python binding
+            cands = [v for k_, v in fs.items() if v.get("name") == "apply" and "error" not in v and len(v.get("params", [])) == 2 and all("str" in ty for _, ty in v["params"]) and "String" in (v.get("ret") or "")]
+            if cands:
+                fs = dict(fs); fs[rs] = dict(cands[0]); fs[rs]["qual"] = rs
         if rs not in fs:
             status[rs] = dict(translated=False, reason="function not found in %s" % path, props=props, model=model, file=path)
             fn_names[rs] = model
